@@ -358,13 +358,15 @@ structure Inv (s : State) : Prop where
   mid_live : ∀ pid ∈ s.mid, ∃ p ∈ s.providers, p.id = pid
   /-- delivered = allGroups ∨ pending ∨ someone is between U1 and U2 / S1 and S2 -/
   send_idle : s.sender = .idle → s.pending = false → s.mid = [] → s.delivered = allGroups s
-  send_snapped : ∀ snap, s.sender = .snapped snap → s.pending = false → s.mid = [] → snap = allGroups s
+  /-- a snapshot in progress, completed against the current targets, is current (same exceptions) -/
+  send_snapping : ∀ acc rest, s.sender = .snapping acc rest → s.pending = false → s.mid = [] →
+    rest.foldl (agProv s.targets) acc = allGroups s
 
 theorem inv_init : Inv {} := by
   refine ⟨by simp, by simp, by simp, by simp, by simp, by simp, ?_, by simp, by simp, by simp, ?_, ?_⟩
   · intro j pid h; simp at h
   · intro _ _ _; rfl
-  · intro snap h; simp at h
+  · intro acc rest h; simp at h
 
 theorem allGroups_congr (s s' : State) (hp : s'.providers = s.providers) (ht : s'.targets = s.targets) :
     allGroups s' = allGroups s := by
@@ -425,7 +427,7 @@ theorem inv_u1 (s : State) (hI : Inv s) (pid : Pid) (u : Upd) (s' : State) (h : 
         · exact ⟨p, hp, hpid⟩
         · exact hI.mid_live q hq
       · intro _ _ hmid; simp at hmid
-      · intro _ _ _ hmid; simp at hmid
+      · intro _ _ _ _ hmid; simp at hmid
 
 theorem inv_applyConfig (s : State) (hI : Inv s) (cfg : List (Job × List Cfg)) : Inv (applyConfig s cfg) := by
   have hR0 : RegOk s.providers s.lastProvider (s.providers, s.lastProvider) :=
@@ -575,7 +577,7 @@ theorem inv_applyConfig (s : State) (hI : Inv s) (cfg : List (Job × List Cfg)) 
       rw [hI.send_idle hs hpend hm0]
       unfold allGroups
       simp [hnil, hps]
-  · intro snap hs hpend hmid
+  · intro acc rest hs hpend hmid
     simp only at hs hpend hmid ⊢
     by_cases hlen : reg.1.length > 0
     · simp [hlen] at hpend
@@ -596,7 +598,9 @@ theorem inv_applyConfig (s : State) (hI : Inv s) (cfg : List (Job × List Cfg)) 
           obtain ⟨p, hp, _⟩ := hI.mid_live a (by rw [h]; exact List.mem_cons_self)
           rw [hps] at hp; simp at hp
       simp only [hlen, if_false] at hpend
-      rw [hI.send_snapped snap hs hpend hm0]
+      have := hI.send_snapping acc rest hs hpend hm0
+      simp only [hnil, List.foldl_nil]
+      rw [this]
       unfold allGroups
       simp [hnil, hps]
 
@@ -604,8 +608,11 @@ theorem inv_step (s : State) (hI : Inv s) (a : Action) (s' : State) (h : step s 
   cases a with
   | u1 pid u => exact inv_u1 s hI pid u s' h
   | applyConfig cfg =>
-    simp only [step, Option.some.injEq] at h
-    subst h; exact inv_applyConfig s hI cfg
+    simp only [step] at h
+    cases hs : s.sender with
+    | idle => rw [hs] at h; simp only [Option.some.injEq] at h; subst h; exact inv_applyConfig s hI cfg
+    | took => rw [hs] at h; simp only [Option.some.injEq] at h; subst h; exact inv_applyConfig s hI cfg
+    | snapping acc rest => rw [hs] at h; simp at h
   | u2 pid =>
     simp only [step] at h
     by_cases hm : pid ∈ s.mid
@@ -615,7 +622,7 @@ theorem inv_step (s : State) (hI : Inv s) (a : Action) (s' : State) (h : step s 
         hI.tgt_hist, hI.hist_fresh, ?_, ?_, ?_⟩
       · intro q hq; exact hI.mid_live q (List.mem_of_mem_erase hq)
       · intro _ hp; simp at hp
-      · intro _ _ hp; simp at hp
+      · intro _ _ _ hp; simp at hp
     · simp [hm] at h
   | s1 =>
     simp only [step] at h
@@ -625,9 +632,9 @@ theorem inv_step (s : State) (hI : Inv s) (a : Action) (s' : State) (h : step s 
       refine ⟨hI.ids_nodup, hI.ids_lt, hI.subs_nodup, hI.subs_ne, hI.newSubs_nil, hI.started, hI.noLeak,
         hI.tgt_hist, hI.hist_fresh, hI.mid_live, ?_, ?_⟩
       · intro hs; simp at hs
-      · intro _ hs; simp at hs
+      · intro _ _ hs; simp at hs
     · simp [hc] at h
-  | s2snap =>
+  | s2begin =>
     simp only [step] at h
     by_cases hc : s.sender = .took
     · simp only [hc, if_true, Option.some.injEq] at h
@@ -635,17 +642,42 @@ theorem inv_step (s : State) (hI : Inv s) (a : Action) (s' : State) (h : step s 
       refine ⟨hI.ids_nodup, hI.ids_lt, hI.subs_nodup, hI.subs_ne, hI.newSubs_nil, hI.started, hI.noLeak,
         hI.tgt_hist, hI.hist_fresh, hI.mid_live, ?_, ?_⟩
       · intro hs; simp at hs
-      · intro snap hs _ _
-        simp only [SenderPc.snapped.injEq] at hs
-        rw [← hs]; exact (allGroups_congr s _ rfl rfl).symm
+      · intro acc rest hs _ _
+        simp only [SenderPc.snapping.injEq] at hs
+        rw [← hs.1, ← hs.2]; rfl
     · simp [hc] at h
+  | s2prov =>
+    simp only [step] at h
+    cases hs : s.sender with
+    | idle => rw [hs] at h; simp at h
+    | took => rw [hs] at h; simp at h
+    | snapping acc rest =>
+      rw [hs] at h
+      cases rest with
+      | nil => simp at h
+      | cons p rest =>
+        simp only [Option.some.injEq] at h
+        subst h
+        refine ⟨hI.ids_nodup, hI.ids_lt, hI.subs_nodup, hI.subs_ne, hI.newSubs_nil, hI.started, hI.noLeak,
+          hI.tgt_hist, hI.hist_fresh, hI.mid_live, ?_, ?_⟩
+        · intro h2; simp at h2
+        · intro acc' rest' h2 hp hm
+          simp only [SenderPc.snapping.injEq] at h2
+          simp only at hp hm ⊢
+          rw [← h2.1, ← h2.2]
+          have := hI.send_snapping acc (p :: rest) hs hp hm
+          simp only [List.foldl_cons] at this
+          rw [this]; exact (allGroups_congr s _ rfl rfl).symm
   | s2send =>
     simp only [step] at h
     cases hs : s.sender with
     | idle => rw [hs] at h; simp at h
     | took => rw [hs] at h; simp at h
-    | snapped snap =>
+    | snapping snap rest =>
       rw [hs] at h
+      cases rest with
+      | cons p rest => simp at h
+      | nil =>
       simp only at h
       by_cases hr : s.consumerReady = true
       · simp only [hr, if_true, Option.some.injEq] at h
@@ -654,26 +686,28 @@ theorem inv_step (s : State) (hI : Inv s) (a : Action) (s' : State) (h : step s 
           hI.tgt_hist, hI.hist_fresh, hI.mid_live, ?_, ?_⟩
         · intro _ hp hm
           simp only at hp hm ⊢
-          rw [hI.send_snapped snap hs hp hm]
+          have := hI.send_snapping snap [] hs hp hm
+          simp only [List.foldl_nil] at this
+          rw [this]
           exact (allGroups_congr s _ rfl rfl).symm
-        · intro _ h2; simp at h2
+        · intro _ _ h2; simp at h2
       · have hr' : s.consumerReady = false := by simpa using hr
         simp only [hr', Bool.false_eq_true, if_false, Option.some.injEq] at h
         subst h
         refine ⟨hI.ids_nodup, hI.ids_lt, hI.subs_nodup, hI.subs_ne, hI.newSubs_nil, hI.started, hI.noLeak,
           hI.tgt_hist, hI.hist_fresh, hI.mid_live, ?_, ?_⟩
         · intro _ hp; simp at hp
-        · intro _ _ hp; simp at hp
+        · intro _ _ _ hp; simp at hp
   | receive =>
     simp only [step, Option.some.injEq] at h
     subst h
     exact ⟨hI.ids_nodup, hI.ids_lt, hI.subs_nodup, hI.subs_ne, hI.newSubs_nil, hI.started, hI.noLeak,
-      hI.tgt_hist, hI.hist_fresh, hI.mid_live, hI.send_idle, hI.send_snapped⟩
+      hI.tgt_hist, hI.hist_fresh, hI.mid_live, hI.send_idle, hI.send_snapping⟩
   | leave =>
     simp only [step, Option.some.injEq] at h
     subst h
     exact ⟨hI.ids_nodup, hI.ids_lt, hI.subs_nodup, hI.subs_ne, hI.newSubs_nil, hI.started, hI.noLeak,
-      hI.tgt_hist, hI.hist_fresh, hI.mid_live, hI.send_idle, hI.send_snapped⟩
+      hI.tgt_hist, hI.hist_fresh, hI.mid_live, hI.send_idle, hI.send_snapping⟩
 
 theorem inv_run (s : State) (hI : Inv s) (acts : List Action) (s' : State) (h : run s acts = some s') : Inv s' := by
   induction acts generalizing s with
